@@ -502,6 +502,12 @@ def _():
         self._swapped_name_value: bool = swapped_name_value
 """)
 
+@fix("D42", "fix: an inline [project] readme ({text = ...}) is the readme text itself, not a path under the project root")
+def _():
+    sub("factory.py",
+        """                package.readme_content = root / readme["text"]""",
+        """                package.readme_content = readme["text"]""")
+
 def main():
     id_ = sys.argv[1]
     msg, f = FIXES[id_]
